@@ -51,6 +51,9 @@ def check_sequence(name, m, k, points, as_numpy):
     p = problem_for(name, m, k)
     out = []
     kept = []
+    scribble = as_numpy != "keep"          # "keep": the caller only keeps the returned lists (as Job.evaluate does)
+    if as_numpy == "keep":
+        as_numpy = False
     for x in points:
         vec = np.array(x, dtype=float) if as_numpy == "ndarray" else ([np.float64(v) for v in x] if as_numpy else list(x))
         ind = Individual(vec)
@@ -59,8 +62,9 @@ def check_sequence(name, m, k, points, as_numpy):
             snap = [float(v) for v in r1]
             after = [float(v) for v in ind.vector]
             try:
-                r1.append(99.0)          # the caller extends / overwrites the list it was given (WorstCaseEvaluator does)
-                r1[0] = -77.0
+                if scribble:
+                    r1.append(99.0)          # the caller extends / overwrites the list it was given (WorstCaseEvaluator does)
+                    r1[0] = -77.0
             except Exception:
                 pass
             r2 = [float(v) for v in p.evaluate(Individual(list(vec) if not hasattr(vec, "copy") else vec.copy()))]
@@ -71,7 +75,7 @@ def check_sequence(name, m, k, points, as_numpy):
                 name, m, x, after, "ndarray" if as_numpy == "ndarray" else "list")))
         if r2 != snap:
             out.append(("C16:%s:second-evaluation-differs" % name, "%s m=%d at %r: first %r, second evaluation of the same individual %r" % (name, m, x, snap, r2)))
-        kept.append((x, r1, ([-77.0] + snap[1:] + [99.0]) if isinstance(r1, list) else snap, snap))
+        kept.append((x, r1, ([-77.0] + snap[1:] + [99.0]) if (isinstance(r1, list) and scribble) else snap, snap))
         if out:
             return out
     for x, obj, now, snap in kept:
@@ -179,7 +183,7 @@ def seq_points(name, m, k):
 def _shard(shard, col: Collector):
     if shard[0] == "seq":
         _, name, m, k = shard
-        for as_numpy in (False, True, "ndarray"):
+        for as_numpy in (False, True, "ndarray", "keep"):
             col.case()
             col.nontrivial(("seq", name, m, k, str(as_numpy)))
             for key, msg in check_sequence(name, m, k, seq_points(name, m, k), as_numpy):
